@@ -3,7 +3,7 @@ CONSTANTS
   MaxPosScore = 10000
   V1Walk = 2
   N = 6
-  Kinds = {"v2", "pos"}
+  Kinds = {"pos"}
   Ts = {1}
   Pt = 4
   Slots = 2
